@@ -343,3 +343,52 @@ func TestC17Table(t *testing.T) {
 		}
 	}
 }
+
+// TestC17Large: one elevator whose alerts cover thousands to tens of thousands of stations (N, S and undirected platforms each),
+// merged into one group: the informed stops must still be exactly the distinct platform or station ids. Every size runs in every tier.
+func TestC17Large(t *testing.T) {
+	type combo struct {
+		n          int
+		policy     string
+		stationIDs bool
+	}
+	var combos []combo
+	for _, n := range []int{9000, 20000, 40000} {
+		combos = append(combos, combo{n, "COMPLEX", true}, combo{n, "COMPLEX", false}, combo{n, "STATION", true}, combo{n, "NONE", false})
+	}
+	for _, k := range combos {
+		k := k
+		n := k.n
+		t.Run(fmt.Sprintf("%d-%s-%v", k.n, k.policy, k.stationIDs), func(outer *testing.T) {
+			fail := ""
+			defer func() {
+				if fail != "" {
+					outer.Fatalf("%s", fail)
+				}
+			}()
+			rapid.Check(outer, func(t *rapid.T) {
+				zone := rapid.SampledFrom([]string{"", "America/New_York"}).Draw(t, "zone")
+				m := &rgen.Msg{Timestamp: rgen.P(uint64(1_700_000_000))}
+				hdr := []rgen.Translation{{Text: "Elevator 728 out of service", Lang: rgen.P("en")}}
+				dirs := rapid.SampledFrom([][]string{{"N", "S"}, {"S", "N", ""}, {"", "N"}}).Draw(t, "members")
+				const digits = "0123456789ABCDEFGHIJKLMNOPQRSTUVWXYZ"
+				for i := 0; i < n; i++ {
+					st := string([]byte{digits[i/1296%36], digits[i/36%36], digits[i%36]})
+					for _, dir := range dirs {
+						a := &rgen.Alert{Header: &hdr, Informed: []rgen.Selector{{Stop: rgen.P(st + dir)}}}
+						m.Entities = append(m.Entities, rgen.Entity{ID: st + dir + "#EL728", AL: a})
+					}
+				}
+				c := CaseC17{Zone: zone, Msg: m, Opts: rgen.NyctAlertsOpts{Policy: k.policy, StationIDs: k.stationIDs, SkipTimetabled: rapid.Bool().Draw(t, "skip"), Metadata: rapid.Bool().Draw(t, "metadata")}}
+				c.Env = genEnv(t)
+				c17Rec.Eval(fmt.Sprintf("large:stations>=%d", n), "large:policy="+c.Opts.Policy)
+				c17Rec.NontrivialCase(vt.Fingerprint([]any{zone, n, dirs, c.Opts}), func() any {
+					return map[string]any{"stations": n, "members_per_station": dirs, "options": c.Opts}
+				})
+				if msg := vt.Try(c17Rec, c, checkC17); msg != "" && fail == "" {
+					fail = msg
+				}
+			})
+		})
+	}
+}
